@@ -42,7 +42,7 @@ BiasKind(mode, t) ==
 BankOf(bank, ft) == bank.filts[CHOOSE i \in 1..Len(bank.types) : bank.types[i] = ft]
 HasBank(bank, ft) == \E i \in 1..Len(bank.types) : bank.types[i] = ft
 LinComb(ws, fs) ==            \* sum_f ws[f] * fs[f]  (images of one type)
-  [fs[1] EXCEPT !.val = [n \in 1..Len(fs[1].val) |-> SumSeq([f \in 1..Len(fs) |-> ws[f] * fs[f].val[n]])]]
+  [fs[1] EXCEPT !.val = Eager([n \in 1..Len(fs[1].val) |-> SumSeq([f \in 1..Len(fs) |-> ws[f] * fs[f].val[n]])])]
 SpatialSum(A) == LET nc == NComp(A) IN [c \in 1..nc |-> SumSeq([m \in 1..NPix(A) |-> A.val[(m - 1) * nc + c]])]
 
 (* contribution of input type index si to target type index ti, output channel o: an image of type tgt *)
@@ -52,7 +52,7 @@ Contribution(c, x, si, tgt, Wst, bank, o) ==
       Frow == [i \in 1..Len(x.blks[si]) |-> LinComb(Wst[o][i], fb)]
   IN ConvContractOne(c, x.blks[si], Frow)
 
-SumImages(imgs) == [imgs[1] EXCEPT !.val = [n \in 1..Len(imgs[1].val) |-> SumSeq([j \in 1..Len(imgs) |-> imgs[j].val[n]])]]
+SumImages(imgs) == [imgs[1] EXCEPT !.val = Eager([n \in 1..Len(imgs[1].val) |-> SumSeq([j \in 1..Len(imgs) |-> imgs[j].val[n]])])]
 
 (* numerator of output channel o of target tgt over the denominator npix(out) *)
 LayerOutChan(c, x, tgt, outc, W, b, bank, mode, ti, o) ==
@@ -62,8 +62,8 @@ LayerOutChan(c, x, tgt, outc, W, b, bank, mode, ti, o) ==
       nc   == NComp(conv)
       bk   == BiasKind(mode, tgt)
       ssum == SpatialSum(conv)
-  IN [conv EXCEPT !.val = [n \in 1..Len(conv.val) |->
+  IN [conv EXCEPT !.val = Eager([n \in 1..Len(conv.val) |->
         CASE bk = "none" -> npix * conv.val[n]
           [] bk = "add"  -> npix * (conv.val[n] + b[ti][o])
-          [] bk = "mean" -> npix * conv.val[n] + b[ti][o] * ssum[((n - 1) % nc) + 1]]]
+          [] bk = "mean" -> npix * conv.val[n] + b[ti][o] * ssum[((n - 1) % nc) + 1]])]
 =============================================================================
